@@ -1,6 +1,6 @@
 //! 16-bit runner: executed by `cargo +nightly miri run --target msp430-none-elf` (usize::BITS == 16,
 //! so the crate's `#[cfg(target_pointer_width = "16")]` take/skip helpers are the ones compiled).
-//! Replays the cases the host generated (H16_CASES points to a generated Rust file) against the
+//! Replays the cases the host generated (one command-line argument per case) against the
 //! real `Display::fill_contiguous` and compares the traffic digest with the one the host
 //! computed on its 64-bit code path (which the host validated against the reference model).
 #![no_std]
@@ -15,8 +15,6 @@ extern "Rust" {
     fn miri_write_to_stderr(bytes: &[u8]);
     fn miri_write_to_stdout(bytes: &[u8]);
 }
-
-include!(env!("H16_CASES"));
 
 fn put(s: &[u8]) {
     unsafe { miri_write_to_stdout(s) };
@@ -48,20 +46,80 @@ fn panic(_i: &core::panic::PanicInfo) -> ! {
     core::intrinsics::abort()
 }
 
+/// parse one case from a C string "m,w,h,ox,oy,rot,mir,rx,ry,rw,rh,len,seed,ok,hash,cmds,words"
+unsafe fn parse(mut p: *const u8) -> Option<(Case16, Outcome16)> {
+    let mut v = [0i64; 17];
+    let mut i = 0;
+    loop {
+        let mut neg = false;
+        let mut n: i64 = 0;
+        let mut digits = 0;
+        if *p == b'-' {
+            neg = true;
+            p = p.add(1);
+        }
+        while *p >= b'0' && *p <= b'9' {
+            n = n * 10 + (*p - b'0') as i64;
+            p = p.add(1);
+            digits += 1;
+        }
+        if digits == 0 || i >= 17 {
+            return None;
+        }
+        v[i] = if neg { -n } else { n };
+        i += 1;
+        if *p == b',' {
+            p = p.add(1);
+            continue;
+        }
+        break;
+    }
+    if i != 17 || *p != 0 {
+        return None;
+    }
+    Some((
+        Case16 {
+            model: v[0] as u8,
+            w: v[1] as u16,
+            h: v[2] as u16,
+            ox: v[3] as u16,
+            oy: v[4] as u16,
+            rot: v[5] as u8,
+            mirrored: v[6] != 0,
+            rx: v[7] as i32,
+            ry: v[8] as i32,
+            rw: v[9] as u32,
+            rh: v[10] as u32,
+            len: v[11] as u32,
+            seed: v[12] as u32,
+        },
+        Outcome16 { ok: v[13] != 0, hash: v[14] as u32, cmds: v[15] as u32, words: v[16] as u32 },
+    ))
+}
+
 #[no_mangle]
-fn miri_start(_argc: isize, _argv: *const *const u8) -> isize {
+fn miri_start(argc: isize, argv: *const *const u8) -> isize {
     if usize::BITS != 16 {
         unsafe { miri_write_to_stderr(b"not a 16-bit target\n") };
         return 3;
     }
     let mut bad = 0u32;
-    for (i, (case, want)) in CASES.iter().enumerate() {
-        unsafe { CURRENT = i as u32 };
-        let got = run_case(case);
-        if got != *want {
+    let mut n = 0u32;
+    // argv[0] is the program name; every further argument is one case
+    for i in 1..argc {
+        let arg = unsafe { *argv.offset(i) };
+        let Some((case, want)) = (unsafe { parse(arg) }) else {
+            put(b"H16-BADARG index=");
+            put_num(i as u32);
+            put(b"\n");
+            return 4;
+        };
+        unsafe { CURRENT = n };
+        let got = run_case(&case);
+        if got != want {
             bad += 1;
             put(b"H16-MISMATCH case=");
-            put_num(i as u32);
+            put_num(n);
             put(b" hash=");
             put_num(got.hash);
             put(b" cmds=");
@@ -72,9 +130,10 @@ fn miri_start(_argc: isize, _argv: *const *const u8) -> isize {
             put_num(got.ok as u32);
             put(b"\n");
         }
+        n += 1;
     }
     put(b"H16-DONE cases=");
-    put_num(CASES.len() as u32);
+    put_num(n);
     put(b" mismatches=");
     put_num(bad);
     put(b"\n");
